@@ -363,4 +363,109 @@ theorem no_round_after_deadline (cfg : Cfg) (dl : Nat) (st : PState) (h : dl ≤
     round cfg dl st = .done (.err .timeout) st := by
   simp [round, h]
 
+/-! ## termination
+
+The measure "servers in the queue + busy servers + back-off steps" does NOT decrease: a truncated
+reply or a case mismatch puts the server back at the front of the queue (a TCP server that keeps
+answering truncated is asked again and again).  What ends every lookup is the clock: a round that
+sends anything advances it (every exchange takes time), a round that sleeps doubles the back-off, and
+the loop stops at the deadline or when the back-off reaches its limit. -/
+
+def measure (dl : Nat) (st : PState) : Nat := (dl - st.clock) + (BACKOFF_LIMIT - st.backoff)
+
+theorem round_next_measure (cfg : Cfg) (hP : LatPos cfg) (dl : Nat) (st st' : PState)
+    (hb : 1 ≤ st.backoff) (h : round cfg dl st = .next st') :
+    measure dl st' < measure dl st ∧ 1 ≤ st'.backoff := by
+  unfold round at h
+  split at h
+  · simp at h
+  · rename_i hlt
+    simp only at h
+    split at h
+    · split at h
+      · rename_i hbusy
+        split at h
+        · simp at h
+        · simp only [RoundOut.next.injEq] at h
+          have hbl : st.backoff < BACKOFF_LIMIT := by
+            simp only [Bool.and_eq_true, decide_eq_true_eq] at hbusy
+            exact hbusy.2
+          subst h
+          simp only [measure]
+          refine ⟨?_, by omega⟩
+          have : dl - (st.clock + min st.backoff (dl - st.clock)) ≤ dl - st.clock := by omega
+          omega
+      · simp at h
+    · rename_i hne
+      split at h
+      · simp at h
+      · rename_i st2 heq
+        simp only [RoundOut.next.injEq] at h
+        subst h
+        have hne' : (takeBatch cfg st.disableUdp (max cfg.ncr 1) st.queue []).1 ≠ [] := by
+          intro hnil; simp [hnil] at hne
+        have hall : ∀ i ∈ (takeBatch cfg st.disableUdp (max cfg.ncr 1) st.queue []).1,
+            allows cfg st.disableUdp i = true := by
+          intro i hi
+          rcases takeBatch_allowed cfg st.disableUdp _ st.queue [] i hi with h | h
+          · simp at h
+          · exact h
+        have hev := sendBatch_ne_nil cfg st.disableUdp st.clock _ st.conns hne'
+        have hc := processEvents_clock_ne cfg
+          { st with queue := (takeBatch cfg st.disableUdp (max cfg.ncr 1) st.queue []).2,
+                    conns := (sendBatch cfg st.disableUdp st.clock
+                      (takeBatch cfg st.disableUdp (max cfg.ncr 1) st.queue []).1 st.conns).2.1,
+                    log := st.log ++ (sendBatch cfg st.disableUdp st.clock
+                      (takeBatch cfg st.disableUdp (max cfg.ncr 1) st.queue []).1 st.conns).2.2 }
+          _ (sortEvents_ne_nil _ hev)
+        have hbk := (processEvents_clock cfg
+          { st with queue := (takeBatch cfg st.disableUdp (max cfg.ncr 1) st.queue []).2,
+                    conns := (sendBatch cfg st.disableUdp st.clock
+                      (takeBatch cfg st.disableUdp (max cfg.ncr 1) st.queue []).1 st.conns).2.1,
+                    log := st.log ++ (sendBatch cfg st.disableUdp st.clock
+                      (takeBatch cfg st.disableUdp (max cfg.ncr 1) st.queue []).1 st.conns).2.2 }
+          (sortEvents (sendBatch cfg st.disableUdp st.clock
+            (takeBatch cfg st.disableUdp (max cfg.ncr 1) st.queue []).1 st.conns).1)).2
+        rw [heq] at hc hbk
+        obtain ⟨ev, hev, hc⟩ := hc
+        have hge := sendBatch_fin_ge cfg hP st.disableUdp st.clock _ st.conns hall ev
+          ((mem_sortEvents ev _).mp hev)
+        simp only at hc hbk
+        simp only [measure]
+        rw [hbk]
+        refine ⟨?_, hb⟩
+        omega
+
+theorem run_terminates (cfg : Cfg) (hP : LatPos cfg) (dl : Nat) :
+    ∀ (n : Nat) (st : PState), measure dl st < n → 1 ≤ st.backoff →
+      ∃ r, run cfg dl n st = some r := by
+  intro n
+  induction n with
+  | zero => intro st h; omega
+  | succ n ih =>
+    intro st hm hb
+    simp only [run]
+    cases hr : round cfg dl st with
+    | done r st' => exact ⟨(r, st'), rfl⟩
+    | next st' =>
+      have := round_next_measure cfg hP dl st st' hb hr
+      exact ih st' (by omega) this.2
+
+/-- **termination**: when every exchange takes time, `try_send` returns within `timeout + 281` rounds,
+whatever the servers do (including servers that are re-queued for ever) -/
+theorem terminates (cfg : Cfg) (hP : LatPos cfg) (rrNext t0 : Nat) (conns : List Conn) :
+    ∃ r, trySend cfg rrNext t0 conns (cfg.timeout + 281) = some r := by
+  unfold trySend
+  apply run_terminates cfg hP
+  · simp [measure, initState, BACKOFF_LIMIT, BACKOFF_START]
+  · simp [initState, BACKOFF_START]
+
+/-- a TCP server that answers truncated for ever: re-queued at the front every round (so the
+queue never shrinks) and ended only by the deadline check, after 34 rounds -/
+def cfgRequeue : Cfg := ⟨[⟨true, 0, none, some [⟨.tc, 3⟩]⟩], .user, 1, 100⟩
+
+example : LatPos cfgRequeue := latPos_of_all _ (by decide)
+example : (trySend cfgRequeue 0 0 [] 40).map (fun x => (x.1, x.2.clock, x.2.log.length)) =
+    some (.err .timeout, 102, 34) := by decide
+
 end HickoryVerif.C18
